@@ -699,6 +699,10 @@ func (p *Parser) GroupByClause() ([]ColumnReference, error) {
 			break
 		}
 		ret = append(ret, cr)
+		// grouping columns may be separated by commas
+		if p.match(COMMA) && !p.curType(IDENT) {
+			return ret, p.unexpectedTypeErr(IDENT)
+		}
 	}
 
 	return ret, nil
